@@ -115,6 +115,9 @@ def run_part(tier: str, rep: common.Reporter) -> Dict[str, Any]:
     return {"coverage": {"states": r["distinct"], "transitions": r["generated"], "traces_validated_against_impl": len(traces),
                          "evaluations": len(traces), "distinct_nontrivial": nontriv, "events_checked": sum(len(t["ev"]) for t in traces),
                          "model_conformance": {"checked": len(cf), "accepted": acc},
+                         "adopt_events": sum(1 for t in traces for e in t["ev"] if e["e"] == "adopt"),
+                         "scenarios_with_shared_explicit_ids": sum(1 for sc in scns if any(
+                             len([e for e in t["entries"] if e.get("i")]) > len({e["i"] for e in t["entries"] if e.get("i")}) for t in sc["cfg"]["tasks"])),
                          "sample": {"scenario": scns[len(scns) // 3], "trace": traces[len(scns) // 3]["ev"][:6]}},
             "violations": viol,
             "assumptions": ["label-based half: real LabelScheduleSource + TaskiqScheduler.on_ready + AsyncKicker against a recording broker; "
